@@ -122,6 +122,7 @@ class C17(Prop):
                    'static label values through the protobuf route arrive as the python value of the AnyValue field']
     quick_examples = 1000
     thorough_examples = 5000
+    fuzz_runs = 20000
     exhaustive_quick = True
     exhaustive_thorough = True
     floors = {'zero_processors': 0.1, 'multi_metric': 0.4, 'via_protobuf': 0.3}
